@@ -1,4 +1,4 @@
-From Verif Require Import Common C02_Model C02_Spec C02_Comp C02_CompSpec C02_Win C02_WinSpec C02_Hook C02_HookSpec.
+From Verif Require Import Common C02_Model C02_Spec C02_Comp C02_CompSpec C02_Win C02_WinSpec C02_Hook C02_HookSpec C02_Relist C02_RelistSpec.
 Open Scope N_scope.
 
 Inductive case :=
@@ -8,13 +8,15 @@ Inductive case :=
 | CDyn (i : dyn_in) (reads : list (list view)) (bad : bool)
 | CDyn2 (i : dyn_in) (k : dcomp) (reads creads : list (list view)) (bad : bool)
 | CWin (i : win_in) (snap : list view) (bad : bool)
-| CHk (i : hk_in) (os : list (list (list (N * N) * N))) (ts : list (list btype)) (bad : bool).
+| CHk (i : hk_in) (os : list (list (list (N * N) * N))) (ts : list (list btype)) (bad : bool)
+| CRl (i : rl_in) (reads : list (list view)) (bad : bool).
+    (* a history with watch outages: changes seen through a re-list (C02_Relist) *)
     (* a hook with bindings of several types (shared names), several executions in one process (C02_Hook) *)
     (* the same beside a second binding with static namespaces sharing the first one's shared informers (C02_Comp) *)
 
 Inductive mo := MSnap (s r : list view) | MUpd (os : list (list (N * N) * N)) (reads : list N) | MGrp (k o : N)
   | MDyn (reads : list (list view)) | MDyn2 (reads creads : list (list view)) | MWin (s : list view)
-  | MHk (os : list (list (list (N * N) * N))) (ts : list (list btype)).
+  | MHk (os : list (list (list (N * N) * N))) (ts : list (list btype)) | MRl (reads : list (list view)).
 
 Definition model_obs (c : case) : mo :=
   match c with
@@ -25,6 +27,7 @@ Definition model_obs (c : case) : mo :=
   | CDyn2 i k _ _ _ => MDyn2 (dyn_views i) (comp_views i k)
   | CWin i _ _ => MWin (w_views i)
   | CHk i _ _ _ => MHk (hk_run i) (hk_types i)
+  | CRl i _ _ => MRl (rl_views i)
   end.
 
 Definition views_eqb : list view -> list view -> bool := list_eqb view_eqb.
@@ -42,6 +45,7 @@ Definition agrees (c : case) : bool :=
   | CDyn2 i k rs crs bad => negb bad && list_eqb views_eqb (dyn_views i) rs && list_eqb views_eqb (comp_views i k) crs
   | CWin i s bad => negb bad && views_eqb (w_views i) s
   | CHk i os ts bad => negb bad && list_eqb (list_eqb ctxo_eqb) (hk_run i) os && list_eqb (list_eqb btype_eqb) (hk_types i) ts
+  | CRl i rs bad => negb bad && list_eqb views_eqb (rl_views i) rs
   end.
 
 Definition spec_ok (c : case) : bool :=
@@ -53,6 +57,7 @@ Definition spec_ok (c : case) : bool :=
   | CDyn2 i k rs crs bad => P_dyn2 i k rs crs bad
   | CWin i s bad => P_win i s bad
   | CHk i os ts bad => P_hk i os ts bad
+  | CRl i rs bad => P_rl i rs bad
   end.
 
 Definition mismatches (cs : list case) : list N := indices_where (fun c => negb (agrees c)) cs.
